@@ -19,6 +19,11 @@ UniformSample(lo, hi, u) == LET a == RMin(lo, hi)
 \* uninterpreted table value supplied at the boundary
 GaussSample(mean, std, z) == RAdd(mean, RMul(std, z))
 
+\* an atmosphere is invalid as soon as the non-fill gases sum above unity in SOME layer (tot[l]: total of layer l, unit:
+\* what "unity" is in the units of tot); "all" -- only when every layer is above unity -- is the expected-counterexample rule
+LayersAbove(tot, unit, rule) == IF rule = "any" THEN \E l \in 1..Len(tot) : tot[l] > unit
+                                ELSE Len(tot) > 0 /\ \A l \in 1..Len(tot) : tot[l] > unit
+
 \* a forward model may also return without raising but with NaN in every bin ("NaNAll": e.g. a
 \* negative temperature, 0/0 in a profile) or in some bins only ("NaNSome")
 NaNKinds == {"NaNAll", "NaNSome"}
